@@ -96,7 +96,15 @@ func c07Core(c *eng.Ctx) {
 	var joinCall *ssa.Call
 	chainOK := false
 	detail := ""
+	viaBuilder := false
 	func() {
+		if bf, bw, bs, isB, bdet := builderChain(cf, patV, compile.Call.Args[0]); isB {
+			format, wild, sep, chainOK, viaBuilder = bf, bw, bs, true, true
+			return
+		} else if sc, _ := eng.TupleCall(compile.Call.Args[0]); sc != nil && isBuilderMethod(&sc.Call, "String") {
+			detail = "strings.Builder form not recognised: " + bdet
+			return
+		}
 		f, operand, det := templateOf(compile.Call.Args[0])
 		if det != "" {
 			detail = det
@@ -135,9 +143,12 @@ func c07Core(c *eng.Ctx) {
 	}
 	c.Check(sep == "*", "R-C07-1", match, compile.Pos(), "split separator "+fmt.Sprintf("%q", sep), "the wildcard character '*'", "")
 	// every piece quoted: a full-range loop over parts storing QuoteMeta(parts[i]) into parts[i] on every iteration
-	quoted := false
+	quoted := viaBuilder // (there: the only non-constant write is QuoteMeta of the loop's element, on every iteration)
 	qdetail := "no full-range loop over the pieces found"
 	for _, l := range eng.RangeLoops(cf) {
+		if viaBuilder {
+			break
+		}
 		if !eng.Same(l.Slice, parts) && l.Slice != parts {
 			continue
 		}
@@ -183,7 +194,7 @@ func c07Core(c *eng.Ctx) {
 		if !ok {
 			return
 		}
-		if ia, ok := s.Addr.(*ssa.IndexAddr); ok && (ia.X == parts || eng.Same(ia.X, parts)) {
+		if ia, ok := s.Addr.(*ssa.IndexAddr); ok && parts != nil && (ia.X == parts || eng.Same(ia.X, parts)) {
 			if call, _ := eng.TupleCall(s.Val); call == nil || !eng.CalleeIs(&call.Call, "regexp", "QuoteMeta") {
 				quoted = false
 				qdetail = "a piece is overwritten with something other than QuoteMeta: " + eng.InstrStr(in)
